@@ -31,6 +31,7 @@ import os
 from typing import TYPE_CHECKING, TypedDict
 
 from .diff_tree import tree_changes
+from .errors import CommitError
 from .file import GitFile
 from .index import (
     IndexEntry,
@@ -349,19 +350,40 @@ class Stash:
         if message is None:
             message = b"A stash on " + self._repo.head()
 
-        # TODO(jelmer): Just pass parents into do_commit()?
-        self._repo.refs[self._ref] = self._repo.head()
+        # The stash commit gets its parents explicitly and the stash ref is
+        # swapped to it once, so the ref never holds an intermediate value.
+        try:
+            old_stash: ObjectID | None = self._repo.refs[self._ref]
+        except KeyError:
+            old_stash = None
 
         cid: ObjectID = self._repo.get_worktree().commit(
-            ref=self._ref,
+            ref=None,
             tree=stash_tree_id,
             message=message,
-            merge_heads=[index_commit_id],
+            merge_heads=[self._repo.head(), index_commit_id],
             no_verify=True,
             sign=False,
             config=config,
             **commit_kwargs,
         )
+        if old_stash is not None:
+            ok = self._repo.refs.set_if_equals(
+                self._ref,
+                old_stash,
+                cid,
+                message=b"commit: " + message,
+                committer=committer,
+            )
+        else:
+            ok = self._repo.refs.add_if_new(
+                self._ref,
+                cid,
+                message=b"commit: " + message,
+                committer=committer,
+            )
+        if not ok:
+            raise CommitError(f"{self._ref!r} changed during stash")
 
         # Reset working tree and index to HEAD to match git's behavior
         # Use update_working_tree to reset from stash tree to HEAD tree
